@@ -38,6 +38,15 @@ STRENGTHENED = {
     "C19-D": "missed: inputs were numbers, lists or expressions -> valid Python literals without a Vyxal value (None, ..., 1e999, sets, bytes)",
     "C03-C": "missed: no context had a later comment after closers that a payload could pair with -> contexts with a structure and a second comment after the literal",
     "C16-C": "missed: the grading law accepted any order among equal items -> grades are compared with the stable grade (ties keep their original order, as in APL)",
+    # third wave (seeds E/F)
+    "C09-F": "missed by C09 (C10 caught it): the entries below the arguments were plain sentinels -> entries that are earlier RESULTS (a ¾ snapshot, the register's / a variable's value, a lazy duplicate)",
+    "C08-E": "missed by C08 (C13 caught it): the two arguments were independent lists -> arguments sharing one lazy source (a list and its duplicate, read at different paces)",
+    "C08-F": "missed by C08 (C13 caught it): as C08-E -> plus the duplicate paired with the reversal of the original object",
+    "C14-E": "missed: the infinite list was always the first operand -> exclusion filter / membership probes with the infinite list as second operand",
+    "C01-E": "strengthened from the seed's notes before its first run: list items that consume / leave values, in the statement menu",
+    "C01-F": "strengthened from the seed's notes before its first run: reference semantics for printing a function value (R12) + such programs under all flags",
+    "C09-E": "strengthened from the seed's notes before its first run: nested modifiers with exactly the entitled arguments",
+    "C12-E": "strengthened from the seed's notes before its first run: conditionless loops with x then X (statements and a chain element)",
     "C14-C": "missed: the item at index n was read from the cache after has_ind -> a third way of taking the prefix: real indexing result[n]",
 }
 
